@@ -145,6 +145,34 @@ pub fn exec(_label: &str, input: &str, out: &mut CaseOut) {
                 }
             }
         }
+        "du" => {
+            // `du <shape>`: a Number whose unit is the database's DEFAULT_UNIT (what `get_unit_or_default`
+            // answers for an unknown name; it has no identifiers), built here through the public fields
+            let unit = match rest {
+                "0" | "1" | "2" | "3" => libhaystack::units::get_unit_or_default("no such unit"),
+                _ => &*libhaystack::units::DEFAULT_UNIT,
+            };
+            let n = Value::Number(Number { value: 5.5, unit: Some(unit) });
+            let v = match rest {
+                "1" | "5" => Value::List(vec![Value::Marker, n]),
+                "2" | "6" => {
+                    let mut d = Dict::new();
+                    d.insert("dis".into(), n);
+                    Value::Dict(d)
+                }
+                "3" | "7" => {
+                    let mut d = Dict::new();
+                    d.insert("a".into(), n.clone());
+                    let mut m = Dict::new();
+                    m.insert("m".into(), n);
+                    Value::Grid(Grid { meta: Some(m.clone()), columns: vec![Column { name: "a".into(), meta: Some(m) }], rows: vec![d], ver: "3.0".into() })
+                }
+                _ => n,
+            };
+            out.nontrivial = true;
+            out.stat("default_unit");
+            encode_all(&v, out, false);
+        }
         "chain" => {
             let mut it = rest.split(' ');
             let kind = it.next().unwrap_or("list");
@@ -201,6 +229,10 @@ pub fn generate(ctx: &mut Ctx) {
     // known finding M3: a timestamp whose LOCAL time is outside chrono's representable range
     ctx.case("m3", "m3 8210266873199 Australia/Sydney");
     ctx.case("m3", "m3 -8334601228800 America/New_York");
+    // a Number carrying the unit database's default unit (no identifiers)
+    for k in 0..8 {
+        ctx.case("default_unit", &format!("du {k}"));
+    }
     let n = ctx.n(4000, 150_000);
     for i in 0..n {
         let mut rng = ctx.rng.fork();
